@@ -180,6 +180,16 @@ def TrigOkW (a : Alg) : Prop :=
     (∀ k, k < B.length → quiet (maskAlg a ps B.length k) (getDom B k) (getDom B'' k)) →
     ∃ st'' B''', runAlg a ps B'' = .ok (st'', B''') ∧ st'' ≠ .inc
 
+/-- the part of `TrigOkW` that holds for no_sub_cycle (`TrigOkW .noSubCycle` itself is FALSE for the
+    code — an unwatched MIN/MAX change can turn an interior value into a bound, after which a
+    re-execution prunes and may fail; known finding K3): once ALL variables are instantiated,
+    unwatched changes cannot make the call fail -/
+def TrigOkP (a : Alg) : Prop :=
+  ∀ ps B st B' B'', Contract a ps B → B.Nonempty → runAlg a ps B = .ok (st, B') → st ≠ .inc →
+    Box.le B'' B' → B''.Nonempty → B''.isGround = true →
+    (∀ k, k < B.length → quiet (maskAlg a ps B.length k) (getDom B k) (getDom B'' k)) →
+    ∃ st'' B3, runAlg a ps B'' = .ok (st'', B3) ∧ st'' ≠ .inc
+
 /-- C16 / C04 for one call: in contract the model neither indexes out of bounds nor runs out of fuel -/
 def Safe (a : Alg) : Prop :=
   ∀ ps B, Contract a ps B → B.Nonempty → ∃ r, runAlg a ps B = .ok r
